@@ -256,6 +256,11 @@ def run_scenario(sc):
         obs['main_points'] = S.threads[0].points
         obs['points'] = {t.role: t.points for t in S.threads[:40]}
         obs['roles_missing'] = list(getattr(S, 'roles_missing', []) or [])
+        if sc.get('want_pflow'):
+            try:
+                obs['pflow'] = extract_pflow(S.trace, sc, obs.get('ops', []))
+            except Exception as e:  # noqa
+                obs['pflow_error'] = repr(e)
         if sc.get('want_shutdown'):
             try:
                 obs['shutdown'] = extract_shutdown(S.trace)
@@ -401,6 +406,70 @@ def extract_kill(trace, i0, i1):
             if key is not None:
                 out[key].append('d')
     return {k: v for k, v in out.items() if 'k' in v}
+
+
+def extract_pflow(trace, sc, ops_obs):
+    """how the parameters of each call reached the workers, in the vocabulary of Model/ParamFlow.lean: C:n:p (a map-family call with
+    parameters p begins; p is the identity of what enters WorkerMapParams, computed from the scenario), D:k (chunk into worker k's
+    queue), E (non-lethal pills), T:k:<kind> (worker k took a parameters pill / a chunk / a non-lethal pill), R:k (slot k restarted
+    by the restart handler), X (lethal pills: the workers are stopped).  Returns the tokens."""
+    pids = {}
+
+    def pid_of(opi, op):
+        key = (opi if not (sc.get('same_func') and sc.get('func_kind') != 'partial') else 'same', bool(op.get('init')), bool(op.get('exit')), op.get('worker_lifespan'),
+               bool(op.get('progress_bar')), op.get('task_timeout'), op.get('worker_init_timeout'), op.get('worker_exit_timeout'))
+        return pids.setdefault(key, len(pids))
+    starts = {}
+    for opi, (op, oo) in enumerate(zip(sc['ops'], ops_obs)):
+        if op['op'] in ('map', 'map_unordered', 'imap', 'imap_unordered') and 'trace_i0' in oo:
+            starts[oo['trace_i0']] = 'C:%d:%d' % (sc['pool'].get('n_jobs', 2), pid_of(opi, op))
+    toks = []
+    stopped = True          # no workers yet
+    in_batch = None         # 'E' / 'X': consecutive pills of one batch give one token
+    skip_next_get = set()
+    pending = None          # the call that has begun but has not touched the workers yet (a restart of the workers may come first)
+    for pos, rec in enumerate(trace):
+        if pos in starts:
+            pending = starts[pos]
+        role, kind = str(rec[2]), rec[3]
+        if pending is not None and ((kind == 'q.put' and isinstance(rec[4], str) and rec[4].startswith('tq[') and not (isinstance(rec[5], str) and rec[5] in ('\x00', '\x01')))
+                                    or (kind == 'start' and role == 'main' and isinstance(rec[4], str) and rec[4].startswith('Worker-'))):
+            toks.append(pending)
+            pending = None
+            stopped = False
+        if kind == 'q.put' and isinstance(rec[4], str) and rec[4].startswith('tq['):
+            item = rec[5]
+            if isinstance(item, str) and item == '\x00':
+                if in_batch != 'X':
+                    toks.append('X')
+                in_batch, stopped = 'X', True
+                continue
+            if isinstance(item, str) and item == '\x01':
+                if in_batch != 'E':
+                    toks.append('E')
+                in_batch = 'E'
+                continue
+            in_batch = None
+            if isinstance(item, str) and item == '\x02':
+                continue                # the parameters pill and …
+            if isinstance(item, tuple) and not stopped:
+                toks.append('D:%s' % rec[4][3:-1])
+        elif kind == 'q.get' and isinstance(rec[4], str) and rec[4].startswith('tq[') and role.startswith('Worker-') and not stopped:
+            k = rec[4][3:-1]
+            item = rec[5]
+            if (role, k) in skip_next_get:
+                skip_next_get.discard((role, k))        # the parameters object that follows its pill
+                continue
+            if isinstance(item, str) and item == '\x02':
+                toks.append('T:%s:P' % k)
+                skip_next_get.add((role, k))
+            elif isinstance(item, str) and item == '\x01':
+                toks.append('T:%s:N' % k)
+            elif isinstance(item, tuple):
+                toks.append('T:%s:C' % k)
+        elif kind == 'start' and role == 'restart_handler' and isinstance(rec[4], str) and rec[4].startswith('Worker-') and not stopped:
+            toks.append('R:%s' % rec[4].split('-')[1])
+    return toks
 
 
 def extract_shutdown(trace):
